@@ -34,7 +34,20 @@ COLLIDE_QUERIES = [("c.star", "SELECT * FROM db.Xx"), ("c.col", "SELECT Xx FROM 
                    ("c.lower", "SELECT xx FROM db.Xx"), ("c.where", "SELECT b FROM db.Xx WHERE Xx = 1")]
 
 
-def schema_for(depth):
+# columns whose only case-significant letters are outside ASCII (case folding is full Unicode unless the dialect says otherwise);
+# declared QUOTED, i.e. case-sensitive: whatever qualify builds from these names must keep denoting them
+UNI_NAMES = ["STRAßE", "straße", "dateÉmission", "DATEéMISSION", "İd", "ıd", "ǅx", "ÀB", "àb", "Σίσυφος", "x_ä", "X_Ä", "ＡＢ", "ab"]
+UNICODE = {"t": {"id": "INT", **{f'"{n}"': "INT" for n in UNI_NAMES}}, "u": {"id": "INT", '"STRAßE"': "INT", '"àb"': "INT"}}
+UNICODE_QUERIES = [("uni.star", "SELECT * FROM t"), ("uni.tstar", "SELECT t.* FROM t"), ("uni.using", 'SELECT * FROM t JOIN u USING ("STRAßE")'),
+                   ("uni.using_cols", 'SELECT "STRAßE", t.id FROM t JOIN u USING ("STRAßE")'), ("uni.natural", "SELECT * FROM t NATURAL JOIN u"),
+                   ("uni.derived", "SELECT * FROM (SELECT * FROM t) AS s"), ("uni.cte", "WITH c AS (SELECT * FROM u) SELECT * FROM c")]
+
+
+def schema_for(depth, dialect=None):
+    if depth == "unicode":
+        # the names are declared quoted, in the dialect's own identifier quoting
+        qd = lambda n: n if n == "id" else exp.to_identifier(n.strip('"'), quoted=True).sql(dialect=dialect or None)
+        return {t: {qd(c): ty for c, ty in cols.items()} for t, cols in UNICODE.items()}
     if depth == "collide":
         import copy
 
@@ -115,7 +128,7 @@ def grammar() -> Grammar:
         A("using_twice_where", 1, "SELECT x.a FROM x JOIN y USING (b) WHERE b > 1 AND b < 99"),
         A("using_where_order", 1, "SELECT x.a FROM x JOIN y USING (b) WHERE b > 1 ORDER BY b, b + 1"),
         A("using_in_exprs", 1, "SELECT b + b AS k, b AS b2 FROM x JOIN y USING (b) GROUP BY b HAVING b > 0"),
-        A("star_replace_join", 1, "SELECT * REPLACE (1 AS b) FROM x CROSS JOIN y"),
+        # (`* REPLACE (1 AS b)` over two sources that both have b is engine-defined - DuckDB emits b once - and is kept out)
         A("star_exclude_join", 1, "SELECT * EXCLUDE (b) FROM x CROSS JOIN y"),
         A("star_replace_using", 1, "SELECT * REPLACE (b + 1 AS b) FROM x JOIN y USING (b)"),
         A("tstar_twice", 1, "SELECT x.*, x.* FROM x"),
@@ -272,12 +285,14 @@ def worker(shard, nshards, plan):
     idx = 0
     for dialect, depth, spelling, items in plan:
         D = Dialect.get_or_raise(dialect or None)
-        schema = schema_for(depth)
+        schema = schema_for(depth, dialect)
         for cost, sql0, tags in items:
             idx += 1
             if idx % nshards != shard:
                 continue
             sql = respell(sql0, spelling)
+            if depth == "unicode":
+                sql = sql.replace('"STRAßE"', exp.to_identifier("STRAßE", quoted=True).sql(dialect=dialect or None))
             try:
                 tree = sqlglot.parse_one(sql, read=dialect or None)
             except Exception:
@@ -286,6 +301,8 @@ def worker(shard, nshards, plan):
             kw = dict(schema=schema, dialect=dialect or None)
             if depth == "collide":
                 pass
+            elif depth == "unicode":
+                kw["identify"] = False   # only identifiers that need it are quoted: the decision rests on Dialect.case_sensitive
             elif depth >= 2:
                 kw["db"] = "db"
             if depth == 3:
@@ -362,7 +379,18 @@ def worker(shard, nshards, plan):
                     got = None
                 if got is not None and got != want and not (tags[0] == "star_using" and sorted(got) == sorted(want)):
                     record(f"star_order|{tags[0]}", dialect, sql, f"star expanded to {got}, schema order gives {want}")
-            elif tags and (tags[0].startswith("scope.") or tags[0].startswith("star_derived_") or tags[0].startswith("star_table_")):
+            elif tags and tags[0].startswith("uni."):
+                # the expanded star must name the schema's columns exactly (they are case-sensitive)
+                try:
+                    got = list(q1.named_selects)
+                except Exception:
+                    got = None
+                want = {"uni.star": ["id"] + UNI_NAMES, "uni.tstar": ["id"] + UNI_NAMES, "uni.derived": ["id"] + UNI_NAMES, "uni.cte": ["id", "STRAßE", "àb"]}.get(tags[0])
+                folds_quoted = D.NORMALIZATION_STRATEGY in (NormalizationStrategy.CASE_INSENSITIVE, NormalizationStrategy.CASE_INSENSITIVE_UPPERCASE)
+                if got is not None and want is not None and not folds_quoted and [g for g in got if g.lower() != "id"] != want[1:]:
+                    record(f"star_names|{tags[0]}", dialect, sql, f"star expanded to {got}, the schema's (quoted) columns are {want}")
+            elif tags and (tags[0].startswith("scope.") or tags[0].startswith("star_") and tags[0] not in ("star_join", "star_using", "star_exclude", "star_replace", "star_derived")
+                           or tags[0] == "tstar_twice"):
                 pass   # stars over nested scopes: rows and output names are compared on DuckDB below
             else:
                 try:
@@ -470,6 +498,9 @@ def run(ctx: Ctx) -> None:
                 if sp != "lower" and Dialect.get_or_raise(d or None).NORMALIZATION_STRATEGY == NormalizationStrategy.CASE_SENSITIVE:
                     continue  # a differently-cased name is a different (unknown) table in a case-sensitive dialect
                 plan.append((d, depth, sp, items))
+    uni_items = [(1, q, (t,)) for t, q in UNICODE_QUERIES]
+    for d in [""] + corpus.all_dialects():
+        plan.append((d, "unicode", "lower", uni_items))
     collide_items = [(1, q, (t,)) for t, q in COLLIDE_QUERIES]
     for d in dialects:
         plan.append((d, "collide", "lower", collide_items))
